@@ -57,7 +57,7 @@ theorem nodeRel_textBlock {src : Bytes} {root : Bool} {g g' : Node} (hg : NodeRe
       { kind := .textBlock, lines := g'.lines, linesNil := g'.linesNil } :=
   ⟨rfl, rfl, rfl, hg.lines, hg.linesNil, rfl, rfl, rfl, rfl, rfl, rfl, trivial,
     .inl ⟨by show (-1 : Int) < 0; decide, rfl⟩, (fun h => by cases h), (fun i hi => by cases hi),
-    (fun h => absurd h (by show ¬ (0 : Int) ≤ -1; decide))⟩
+    (fun h => absurd h (by show ¬ (0 : Int) ≤ -1; decide)), (fun _ _ => rfl)⟩
 
 theorem kind_para_q {src : Bytes} {id : Nat} {g g' : Node} (hg : NodeRel src (id == 0) g g') :
     (g'.kind == Kind.paragraph) = (g.kind == Kind.paragraph) := by
